@@ -18,8 +18,10 @@ theorem accept_iff (c : Cl) (e : Ev) (b : Body) (sw : List Nat) :
     (processCommit c e b sw).2 = .commit ↔ (isAdmin c.g e.sender = true ∨ isPureSelfUpdate b sw = true) := by
   unfold processCommit
   by_cases h : (isAdmin c.g e.sender || isPureSelfUpdate b sw) = true
-  · simp only [h, Bool.not_true, Bool.false_eq_true, if_false, true_iff]
-    simpa using h
+  · simp only [h, Bool.not_true, Bool.false_eq_true, if_false]
+    constructor
+    · intro _; simpa using h
+    · intro _; split <;> rfl
   · have h' : (isAdmin c.g e.sender || isPureSelfUpdate b sw) = false := by simpa using h
     simp only [h', Bool.not_false, if_true]
     constructor
@@ -57,7 +59,8 @@ theorem nonadmin_effect (c : Cl) (e : Ev) (b : Body) (sw : List Nat)
     exact ⟨rfl, by simpa using hp⟩
   obtain ⟨rfl, rfl⟩ := hb
   unfold processCommit
-  simp only [hna, hp, Bool.or_true, Bool.not_true, Bool.false_eq_true, if_false]
+  have hme : removesMe c.id .selfUpdate [] = false := rfl
+  simp only [hna, hp, hme, Bool.or_true, Bool.not_true, Bool.false_eq_true, if_false]
   have hf := fun g => ensureSecret_fields g
   have hd := fun g => ensureSecret_data g
   simp [setRec, syncRec, mergeCommit, hk, applyBody, mgrCreate, (hf _).2.1, (hf _).2.2.1, (hf _).2.2.2.1,
@@ -76,7 +79,7 @@ theorem nonadmin_effect_data (c : Cl) (e : Ev) (b : Body) (sw : List Nat)
     replaced (admins / relays as sets) -/
 theorem data_update_admin_only (c : Cl) (n ts idn : Nat) (u : DataUpd) (e : Ev)
     (h : (updateData c n ts idn u).2 = .ev e) :
-    isAdmin c.g c.id = true ∧ c.g.pending = none ∧
+    c.g.active = true ∧ isAdmin c.g c.id = true ∧ c.g.pending = none ∧
     (∀ a, u.admins = some a → a ≠ [] ∧ ∀ x ∈ a, x ∈ c.g.members) ∧
     e.sender = c.id ∧ e.path = c.g.path ∧
     e.kind = .commit (.setData (applyUpd (dataOf c.g) u)) c.g.props := by
@@ -94,6 +97,11 @@ theorem data_update_admin_only (c : Cl) (n ts idn : Nat) (u : DataUpd) (e : Ev)
       unfold stageCommit at h
       rw [hg] at h
       simp only [Bool.not_true, Bool.false_eq_true, if_false, Bool.true_and] at h
+      cases hact : c.g.active with
+      | false => rw [hact] at h; cases h
+      | true =>
+      rw [hact] at h
+      simp only [Bool.not_true, Bool.false_eq_true, if_false] at h
       cases hadm : isAdmin c.g c.id with
       | false => rw [hadm] at h; cases h
       | true =>
@@ -105,7 +113,7 @@ theorem data_update_admin_only (c : Cl) (n ts idn : Nat) (u : DataUpd) (e : Ev)
           rw [hpend] at h
           simp only [Option.isSome_none, Bool.false_eq_true, if_false] at h
           injection h with h; subst h
-          refine ⟨rfl, rfl, ?_, rfl, ensureSecret_path _, by simp⟩
+          refine ⟨rfl, rfl, rfl, ?_, rfl, ensureSecret_path _, by simp⟩
           intro a ha
           simp only [adminsArgBad, ha] at hv
           have hv' : adminUpdateOk c.g a = true := by simpa using hv
@@ -114,6 +122,98 @@ theorem data_update_admin_only (c : Cl) (n ts idn : Nat) (u : DataUpd) (e : Ev)
           · intro h0; subst h0; simp at hv'
           · intro x hx
             simpa using hv'.2 x hx
+
+/-- **roster_change_admin_only**: `add_members` / `remove_members` publish a commit only if the caller is an
+    active member and an admin in its OWN current MLS state and no commit is pending; an add needs a stored relay and
+    nobody who is a member already; a removal names exactly the listed members that ARE members (at least one) -/
+theorem roster_change_admin_only (c : Cl) (n ts idn : Nat) (who : List Nat) (e : Ev) :
+    ((addMembers c n ts idn who).2 = .ev e →
+      c.g.active = true ∧ isAdmin c.g c.id = true ∧ c.g.pending = none ∧ c.g.recRelays ≠ [] ∧
+      (∀ x ∈ who, x ∉ c.g.members) ∧ e.kind = .commit (.addMembers who) c.g.props) ∧
+    ((removeMembers c n ts idn who).2 = .ev e →
+      c.g.active = true ∧ isAdmin c.g c.id = true ∧ c.g.pending = none ∧
+      who.filter (fun m => c.g.members.contains m) ≠ [] ∧
+      e.kind = .commit (.removeLeavers (who.filter (fun m => c.g.members.contains m))) c.g.props) := by
+  have stage : ∀ b, (stageCommit c n ts idn b true).2 = .ev e →
+      c.g.active = true ∧ isAdmin c.g c.id = true ∧ c.g.pending = none ∧ e.kind = .commit b c.g.props := by
+    intro b h
+    unfold stageCommit at h
+    cases hg : c.hasGroup with
+    | false => rw [hg] at h; cases h
+    | true =>
+      rw [hg] at h
+      simp only [Bool.not_true, Bool.false_eq_true, if_false, Bool.true_and] at h
+      cases hact : c.g.active with
+      | false => rw [hact] at h; cases h
+      | true =>
+        rw [hact] at h
+        simp only [Bool.not_true, Bool.false_eq_true, if_false] at h
+        cases hadm : isAdmin c.g c.id with
+        | false => rw [hadm] at h; cases h
+        | true =>
+          rw [hadm] at h
+          simp only [Bool.not_true, Bool.false_eq_true, if_false] at h
+          cases hpend : c.g.pending with
+          | some p => rw [hpend] at h; cases h
+          | none =>
+            rw [hpend] at h
+            simp only [Option.isSome_none, Bool.false_eq_true, if_false] at h
+            injection h with h; subst h
+            exact ⟨rfl, rfl, rfl, by simp⟩
+  constructor
+  · intro h
+    unfold addMembers at h
+    split at h
+    · cases h
+    · split at h
+      · cases h
+      · split at h
+        · cases h
+        · split at h
+          · cases h
+          · split at h
+            · cases h
+            · rename_i _ _ _ hrel hany
+              obtain ⟨h1, h2, h3, h4⟩ := stage _ h
+              refine ⟨h1, h2, h3, ?_, ?_, h4⟩
+              · intro h0; rw [h0] at hrel; exact hrel rfl
+              · intro x hx hm
+                apply hany
+                simp only [List.any_eq_true]
+                exact ⟨x, hx, by simpa using hm⟩
+  · intro h
+    unfold removeMembers at h
+    split at h
+    · cases h
+    · split at h
+      · cases h
+      · split at h
+        · cases h
+        · split at h
+          · cases h
+          · rename_i _ _ _ hemp
+            obtain ⟨h1, h2, h3, h4⟩ := stage _ h
+            refine ⟨h1, h2, h3, ?_, h4⟩
+            intro h0; rw [h0] at hemp; exact hemp rfl
+
+/-- **joiner_state**: the state a welcome gives the new member is the inviter's post-commit state — the same path,
+    roster (old members, the added ones, minus the swept leavers), group data and record epoch every receiver of
+    the add commit reaches (`childG`) — with nothing of the past: no stored exporter secret, no past-epoch secrets,
+    nothing consumed, queued or pending -/
+theorem joiner_state (c : Cl) (e : Ev) (who sw : List Nat) (hk : e.kind = .commit (.addMembers who) sw) :
+    let j := welcomeState c.maxPast (ensureSecret c.g) e
+    j.path = c.g.path ++ [e.cipher] ∧
+    j.members = (c.g.members ++ who.filter (fun m => !(c.g.members.contains m))).filter (fun m => !(sw.contains m)) ∧
+    dataOf j = dataOf c.g ∧ Synced j ∧ j.active = true ∧
+    j.secrets = [] ∧ j.past = [] ∧ j.consumed = [] ∧ j.props = [] ∧ j.pending = none := by
+  have e1 := ensureSecret_fields c.g
+  have e2 := ensureSecret_data c.g
+  refine ⟨?_, ?_, ?_, ?_, rfl, rfl, rfl, rfl, rfl, rfl⟩
+  · simp [welcomeState, joinState, syncRec, mergeCommit, hk, applyBody, e1.1]
+  · simp [welcomeState, joinState, syncRec, mergeCommit, hk, applyBody, e1.2.1]
+  · simp [welcomeState, joinState, syncRec, mergeCommit, hk, applyBody, dataOf, e1.2.2.1, e1.2.2.2.1, e2.1, e2.2.1, e2.2.2.1]
+  · have := synced_syncRec (mergeCommit c.maxPast (ensureSecret c.g) e)
+    simpa [welcomeState, joinState, Synced] using this
 
 /-- **proposal_inert**: a processed leave proposal never changes epoch, members, admins or data by
     itself; a non-admin receiver only queues it -/
@@ -131,23 +231,25 @@ theorem proposal_inert (retry : Cl → Option (Cl × Res)) (nx : Nat) (c : Cl) (
   unfold step1
   split
   · simp [recordFailure, setRec]
-  · simp only
-    split
-    · simpa [recordFailure, setRec] using hw
-    · simp only [hk]
+  · split
+    · simp [recordFailure, setRec]
+    · simp only
       split
-      · simpa [failUnprocessable, recordFailure, setRec] using hw
-      · split
-        · unfold ownMessage
-          repeat' split
-          all_goals first | (simpa [setRec, returnOwnCommit, syncRec] using hw)
+      · simpa [recordFailure, setRec] using hw
+      · simp only [hk]
+        split
+        · simpa [failUnprocessable, recordFailure, setRec] using hw
         · split
-          · simpa [failUnprocessable, recordFailure, setRec] using hw
+          · unfold ownMessage
+            repeat' split
+            all_goals first | (simpa [setRec, returnOwnCommit, syncRec] using hw)
           · split
-            · simp only [setRec, ensureSecret_path, ensureSecret_members, ensureSecret_admins, ensureSecret_name,
-                ensureSecret_desc, ensureSecret_relays, ensureSecret_nid]
-              exact hw
-            · simpa [setRec] using hw
+            · simpa [failUnprocessable, recordFailure, setRec] using hw
+            · split
+              · simp only [setRec, ensureSecret_path, ensureSecret_members, ensureSecret_admins, ensureSecret_name,
+                  ensureSecret_desc, ensureSecret_relays, ensureSecret_nid]
+                exact hw
+              · simpa [setRec] using hw
 
 /-- the known sweep: a commit staged by an admin carries every queued proposal, whoever made it
     (openmls commit builders consume the proposal store) — the full "an admin's operation changes
@@ -159,7 +261,7 @@ def admin_op_exact_full : Prop :=
 
 theorem admin_op_exact_partial (c : Cl) (n ts idn : Nat) (u : DataUpd) (e : Ev) (hp : c.g.props = [])
     (h : (updateData c n ts idn u).2 = .ev e) : e.kind = .commit (.setData (applyUpd (dataOf c.g) u)) [] := by
-  rw [(data_update_admin_only c n ts idn u e h).2.2.2.2.2, hp]
+  rw [(data_update_admin_only c n ts idn u e h).2.2.2.2.2.2, hp]
 
 def wAdmin : Cl := { initCl 0 false 5 [0, 1, 2] [0] 1 with g := { (initG [0, 1, 2] [0] 1) with props := [2] } }
 theorem admin_op_exact_full_false : ¬ admin_op_exact_full := by
